@@ -11,6 +11,7 @@ import json
 import gql
 import kfpred
 import space
+from gql import Doc, Op, Spread, Inline, Field, TN
 from common import Report, pick_samples, log
 from farm import Farm, Case
 from genlib import gen_request, generate, DEFAULT_OPTS
@@ -122,6 +123,15 @@ def run(tier):
         if gql.validate(schema, doc):
             continue
         entries.append({"focus": focus, "labels": labels, "doc": doc, "query": gql.render_doc(doc), "ov": False, "schema": schema, "schema_name": "CORE"})
+    # fragments that carry @skip: when the server does send their fields, those are as precise as anywhere else
+    lib = space.fragment_library()
+    S = [("skip", "s")]
+    for name, sel in (("conditional spread on an object", [Field("me", [Field("id"), Spread("UserB", directives=S)])]),
+                      ("conditional spread as a variant", [Field("thing", [TN(), Spread("CatF", directives=S), Inline("User", [Field("name")])])]),
+                      ("conditional spread, sole selection", [Field("me", [Spread("UserA", directives=S)])]),
+                      ("conditional inline fragment", [Field("node", [TN(), Field("id"), Inline("Org", [Field("kind"), Field("memberIds")], directives=S)])])):
+        doc = Doc(space.used_fragments(sel, lib) + [Op("query", "Op", sel, [("s", "Boolean!", None)])])
+        entries.append({"focus": "conditional fragment", "labels": [name], "doc": doc, "query": gql.render_doc(doc), "ov": False, "schema": schema, "schema_name": "CORE"})
     from checks import c07
     lattice = []
     for fs in [tuple(c07.FEATURES)] + [(f,) for f in c07.FEATURES]:
@@ -133,7 +143,7 @@ def run(tier):
     ov = [dict(e, ov=True) for e in entries + lattice if has_abstract_position(e["schema"], e["doc"])]
     if tier == "quick":
         ov = [e for i, e in enumerate(ov) if i % 2 == 0]
-        entries = [e for i, e in enumerate(entries) if i % 2 == 0 or has_abstract_position(schema, e["doc"])]
+        entries = [e for i, e in enumerate(entries) if i % 2 == 0 or has_abstract_position(schema, e["doc"]) or e["focus"] == "conditional fragment"]
     # precision is not conditional on the Rust-side options either: single-item operations and the lattice once more
     # under rust normalization + skip-none (+ other-variant as chosen above)
     rn = [dict(e, opts={"normalization": "rust", "skip_none": True}) for e in entries + lattice + ov if len(e["labels"]) == 1]
